@@ -326,6 +326,24 @@ class CFG:
                 continue
         return []
 
+    def rpo(self) -> Dict["Node", int]:
+        """Reverse post-order index of every node reachable from entry (a topological order ignoring back edges)."""
+        seen: Set[Node] = set()
+        post: List[Node] = []
+        stack: List[Tuple[Node, int]] = [(self.entry, 0)]
+        seen.add(self.entry)
+        while stack:
+            n, i = stack.pop()
+            if i < len(n.succ):
+                stack.append((n, i + 1))
+                m = n.succ[i][0]
+                if m not in seen:
+                    seen.add(m)
+                    stack.append((m, 0))
+            else:
+                post.append(n)
+        return {n: k for k, n in enumerate(reversed(post))}
+
     def where(self, pred: Callable[[Node], bool]) -> List[Node]:
         return [n for n in self.nodes if pred(n)]
 
